@@ -1,12 +1,956 @@
-//! C14 - (to be written)
+//! C14 - blind rotation evaluates the lookup table at the encrypted index (engine E1).
+//!
+//! Families (each x backend)
+//! * `clear/<be>`       lookup_table_set against the definition (table replicated in steps of domain/len, scaled to
+//!   2^-k, pre-rotated by half a step) on Z[Y]/(Y^(N*ext)+1); then, for EVERY rotation index k in [0, 2*N*ext) and both
+//!   signs, lookup_table_rotate against the index-level ring model on every limb, and the selection statement: the
+//!   constant coefficient is the table entry selected by the index, with the negacyclic sign on wrap-around.
+//! * `clear-wide/<be>`  rotation amounts outside (-2D, 2D): the documented meaning is "by k positions in the ring".
+//! * `blind/<be>`       every message of Z_{2^p}, p = 1..5, encrypted as LWE by the library; the rotation index is
+//!   recomputed from the LWE limbs and the clear secret (definition of the modulus switch), compared coefficient by
+//!   coefficient with the library's public mod_switch_2n; the GLWE result is decrypted with the exact phase and must
+//!   be the table rotated by that index, coefficient by coefficient, within the derived worst-case noise bound; when
+//!   the error budget is below half a step the constant coefficient must be f(m).
+//! * `blind-mask/<be>`  crafted noiseless LWE samples: every value v in [0, 2D) at every mask position (others 0),
+//!   which drives every per-coefficient rotation amount through the accumulator update.
 
-use pvc_engine::Run;
-use serde_json::Value;
+use crate::lutmodel::*;
+use poulpy_bin_fhe::blind_rotation::{
+    BlindRotationExecute, BlindRotationKey, BlindRotationKeyEncryptSk, BlindRotationKeyLayout, BlindRotationKeyPrepared,
+    BlindRotationKeyPreparedFactory, CGGI, LookUpTableLayout, LookUpTableRotationDirection, LookupTable, LookupTableFactory,
+    mod_switch_2n,
+};
+use poulpy_bin_fhe::verif_hooks::{lut_drift, lut_limbs};
+use poulpy_core::layouts::{
+    GLWE, GLWELayout, GLWESecret, GLWESecretPrepared, GLWESecretPreparedFactory, LWE, LWELayout, LWEPlaintext, LWESecret, LWEToRef,
+};
+use poulpy_core::{EncryptionLayout, LWEEncryptSk, ScratchTakeCore};
+use poulpy_hal::layouts::{DeviceBuf, Module, Scratch, VecZnx, ZnxInfos, ZnxView, ZnxViewMut};
+use poulpy_hal::source::Source;
+use pvc_common::phase::{Dist, clear_secret, glwe_phase};
+use pvc_common::{Bk, CoreAll, HalAll, for_backends};
+use pvc_engine::rng::garbage;
+use pvc_engine::{Rec, Run, Tier, fnv, guarded, hash_i64s};
+use pvc_model::{ring, torus};
+use serde::{Deserialize, Serialize};
+use serde_json::{Value, json};
 
-pub fn run(_run: &mut Run) {
-    panic!("C14: not implemented yet");
+pub trait BrAll<B: Bk>:
+    LookupTableFactory
+    + BlindRotationKeyEncryptSk<CGGI, B>
+    + BlindRotationKeyPreparedFactory<CGGI, B>
+    + BlindRotationExecute<CGGI, B>
+    + GLWESecretPreparedFactory<B>
+    + LWEEncryptSk<B>
+{
+}
+impl<B: Bk, T> BrAll<B> for T where
+    T: LookupTableFactory
+        + BlindRotationKeyEncryptSk<CGGI, B>
+        + BlindRotationKeyPreparedFactory<CGGI, B>
+        + BlindRotationExecute<CGGI, B>
+        + GLWESecretPreparedFactory<B>
+        + LWEEncryptSk<B>
+{
 }
 
-pub fn replay(_run: &mut Run, _d: &Value) {
-    panic!("C14: not implemented yet");
+// ===============================================================================================================
+// clear path
+// ===============================================================================================================
+
+#[derive(Clone, Debug, Serialize, Deserialize)]
+pub struct ClearCase {
+    pub backend: String,
+    pub n: usize,
+    pub ext: usize,
+    pub len: usize,
+    /// scale argument of lookup_table_set: entries are placed at 2^-k_msg
+    pub k_msg: usize,
+    pub base2k: usize,
+    /// limbs of the table
+    pub size: usize,
+    pub alpha: Alpha,
+}
+
+/// limbs[e][j][i] of a table, through hook H2
+fn read_table(lut: &LookupTable) -> Vec<Vec<Vec<i64>>> {
+    lut_limbs(lut).iter().map(|v: &VecZnx<Vec<u8>>| (0..v.size()).map(|j| v.at(0, j).to_vec()).collect()).collect()
+}
+
+/// per-limb polynomial over the extended ring: ext[j][pos], pos = m*ext + e  <->  data[e][j][m]
+fn extended(limbs: &[Vec<Vec<i64>>]) -> Vec<Vec<i64>> {
+    let ext = limbs.len();
+    let size = limbs[0].len();
+    let n = limbs[0][0].len();
+    (0..size).map(|j| (0..n * ext).map(|pos| limbs[pos % ext][j][pos / ext]).collect()).collect()
+}
+
+fn new_lut<B: Bk>(c: &ClearCase) -> LookupTable {
+    LookupTable::alloc(&LookUpTableLayout {
+        n: (c.n as u32).into(),
+        extension_factor: c.ext,
+        k: ((c.size * c.base2k) as u32).into(),
+        base2k: (c.base2k as u32).into(),
+    })
+}
+
+pub fn exec_clear<B: Bk>(c: &ClearCase, only_k: Option<i64>, rec: &mut Rec)
+where
+    Module<B>: HalAll<B> + CoreAll<B> + BrAll<B>,
+    Scratch<B>: ScratchTakeCore<B>,
+{
+    let m = B::module(c.n);
+    let d = c.n * c.ext;
+    let bits = c.size * c.base2k;
+    let f = alpha_table(c.alpha, c.len, c.k_msg);
+    let fail = |kind: &str, inner: Value, extra: Value| json!({"op": "lookup_table", "backend": B::NAME, "kind": kind, "case": c, "inner": inner, "detail": extra});
+    rec.distinct(fnv(format!("{:?}", c).as_bytes()));
+    rec.sample(|| serde_json::to_value(c).unwrap());
+
+    // ---- set ----
+    let mut lut = new_lut::<B>(c);
+    if let Err(msg) = guarded(|| m.lookup_table_set(&mut lut, &f, c.k_msg)) {
+        rec.fail(json!({"op": "lookup_table_set", "backend": B::NAME, "kind": "panic", "case": c, "inner": {}, "panic": msg}));
+        return;
+    }
+    rec.evals(1);
+    let model = LutModel::new(d, &f, c.k_msg, bits);
+    let l0 = read_table(&lut);
+    if lut_drift(&lut) != model.drift {
+        rec.fail(fail("wrong_drift", json!({}), json!({"got": lut_drift(&lut), "want": model.drift})));
+    }
+    if l0.len() != c.ext || l0.iter().any(|e| e.len() != c.size || e.iter().any(|l| l.len() != c.n)) {
+        rec.fail(fail("wrong_shape", json!({}), json!({"slots": l0.len()})));
+        return;
+    }
+    // digit range + value
+    let e0 = extended(&l0);
+    let half = 1i64 << (c.base2k - 1);
+    for pos in 0..d {
+        let digits: Vec<i64> = (0..c.size).map(|j| e0[j][pos]).collect();
+        if digits.iter().any(|&x| x < -half || x > half) {
+            rec.fail(fail("set_digit_out_of_range", json!({"pos": pos}), json!({"digits": digits})));
+            return;
+        }
+        let got = torus::value_scaled_small(&digits, c.base2k);
+        let want = model.pre[pos] as i128;
+        if torus::centered_mod_pow2_i128(got - want, bits) != 0 {
+            rec.fail(fail(
+                "set_wrong_value",
+                json!({"pos": pos}),
+                json!({"digits": digits, "got_scaled": got.to_string(), "want_scaled": want.to_string(), "drift": model.drift, "step": model.step}),
+            ));
+            return;
+        }
+    }
+    rec.outcome(hash_i64s(&e0.concat()));
+    // re-use: setting another function on a rotated table must equal a fresh set
+    {
+        let f2: Vec<i64> = f.iter().map(|x| x + 1).collect();
+        let mut a = new_lut::<B>(c);
+        let mut b = new_lut::<B>(c);
+        let r = guarded(|| {
+            m.lookup_table_set(&mut a, &f, c.k_msg);
+            m.lookup_table_rotate(3, &mut a);
+            m.lookup_table_set(&mut a, &f2, c.k_msg);
+            m.lookup_table_set(&mut b, &f2, c.k_msg);
+        });
+        rec.evals(1);
+        match r {
+            Err(msg) => rec.fail(json!({"op": "lookup_table_set", "backend": B::NAME, "kind": "panic", "case": c, "inner": {"reuse": true}, "panic": msg})),
+            Ok(()) => {
+                if read_table(&a) != read_table(&b) || lut_drift(&a) != lut_drift(&b) {
+                    rec.fail(fail("set_depends_on_previous_content", json!({"reuse": true}), json!({})));
+                }
+            }
+        }
+    }
+
+    // ---- rotate: every k in [0, 2D), both signs; sequence T0 -k-> A -(-k)-> T0 -(-k)-> C -k-> T0 ----
+    let two_d = 2 * d as i64;
+    let scale_bits = bits - c.k_msg;
+    for k in 0..two_d {
+        if let Some(o) = only_k {
+            if o != k {
+                continue;
+            }
+        }
+        for (stage, rot) in [k, -k, -k, k].into_iter().enumerate() {
+            if let Err(msg) = guarded(|| m.lookup_table_rotate(rot, &mut lut)) {
+                rec.fail(json!({"op": "lookup_table_rotate", "backend": B::NAME, "kind": "panic", "case": c, "inner": {"k": k, "stage": stage, "rot": rot}, "panic": msg}));
+                return;
+            }
+            rec.evals(1);
+            // net rotation after this stage
+            let net = match stage {
+                0 => k,
+                2 => -k,
+                _ => 0,
+            };
+            let got = extended(&read_table(&lut));
+            for j in 0..c.size {
+                let want = ring::mul_xk(&e0[j], net);
+                if got[j] != want {
+                    let pos = (0..d).find(|&p| got[j][p] != want[p]).unwrap();
+                    rec.fail(fail(
+                        "rotate_wrong_value",
+                        json!({"k": k, "stage": stage, "rot": rot}),
+                        json!({"limb": j, "pos": pos, "slot": pos % c.ext, "index": pos / c.ext, "got": got[j][pos], "want": want[pos]}),
+                    ));
+                    return;
+                }
+            }
+            if lut_drift(&lut) != model.drift {
+                rec.fail(fail("rotate_changed_drift", json!({"k": k, "stage": stage}), json!({"got": lut_drift(&lut)})));
+                return;
+            }
+            if stage == 0 || stage == 2 {
+                // selection statement on the constant coefficient: rotation by X^net brings coefficient (-net mod 2D) to 0
+                let t = ((-net) % two_d + two_d) % two_d;
+                let (sign, idx) = model.select(t as usize);
+                let want = (sign * f[idx]) as i128 * (1i128 << scale_bits);
+                let digits: Vec<i64> = (0..c.size).map(|j| got[j][0]).collect();
+                let have = torus::value_scaled_small(&digits, c.base2k);
+                if torus::centered_mod_pow2_i128(have - want, bits) != 0 {
+                    rec.fail(fail(
+                        "wrong_entry_selected",
+                        json!({"k": k, "stage": stage, "rot": rot}),
+                        json!({"index": t, "entry": idx, "sign": sign, "f": f[idx], "digits": digits}),
+                    ));
+                    return;
+                }
+            }
+        }
+    }
+}
+
+#[derive(Clone, Debug, Serialize, Deserialize)]
+pub struct WideCase {
+    pub backend: String,
+    pub n: usize,
+    pub ext: usize,
+    pub base2k: usize,
+}
+
+pub fn exec_wide<B: Bk>(c: &WideCase, rec: &mut Rec)
+where
+    Module<B>: HalAll<B> + CoreAll<B> + BrAll<B>,
+    Scratch<B>: ScratchTakeCore<B>,
+{
+    let m = B::module(c.n);
+    let d = (c.n * c.ext) as i64;
+    let cc = ClearCase {
+        backend: c.backend.clone(),
+        n: c.n,
+        ext: c.ext,
+        len: 4,
+        k_msg: 3,
+        base2k: c.base2k,
+        size: 2,
+        alpha: Alpha::Odd,
+    };
+    let f = alpha_table(cc.alpha, cc.len, cc.k_msg);
+    rec.distinct(fnv(format!("{:?}", c).as_bytes()));
+    let ks: Vec<i64> = vec![2 * d, 2 * d + 1, 4 * d + 3, 6 * d - 1, -2 * d, -2 * d - 1, -3 * d, -4 * d - 3, -6 * d + 1, i64::from(i32::MAX), -i64::from(i32::MAX)];
+    for k in ks {
+        let mut lut = new_lut::<B>(&cc);
+        let r = guarded(|| {
+            m.lookup_table_set(&mut lut, &f, cc.k_msg);
+        });
+        if r.is_err() {
+            return;
+        }
+        let e0 = extended(&read_table(&lut));
+        let r = guarded(|| m.lookup_table_rotate(k, &mut lut));
+        rec.evals(1);
+        let class = if k >= 2 * d { "k>=2D" } else { "k<=-2D" };
+        match r {
+            Err(msg) => rec.fail(json!({"op": "lookup_table_rotate", "backend": B::NAME, "kind": "panic", "case": c, "inner": {"k": k}, "range": class, "panic": msg})),
+            Ok(()) => {
+                let got = extended(&read_table(&lut));
+                let ok = (0..cc.size).all(|j| got[j] == ring::mul_xk(&e0[j], k));
+                if !ok {
+                    rec.fail(json!({"op": "lookup_table_rotate", "backend": B::NAME, "kind": "rotate_wrong_value", "case": c, "inner": {"k": k}, "range": class}));
+                }
+            }
+        }
+    }
+}
+
+fn clear_cases<B: Bk>(tier: Tier) -> Vec<ClearCase> {
+    let mut out = vec![];
+    for &n in &[8usize, 16, 32] {
+        for &ext in &[1usize, 2, 4, 8] {
+            let mut len = 1;
+            while len <= n {
+                for k_msg in 1..=6usize {
+                    for &base2k in &[4usize, 12, 19] {
+                        let need = k_msg.div_ceil(base2k);
+                        let sizes: Vec<usize> = tier.pick(vec![need], vec![need, need + 1]);
+                        for size in sizes {
+                            let alphas: &[Alpha] = tier.pick(&[Alpha::Index, Alpha::Extreme][..], &ALL_ALPHAS[..]);
+                            for &alpha in alphas {
+                                out.push(ClearCase {
+                                    backend: B::NAME.into(),
+                                    n,
+                                    ext,
+                                    len,
+                                    k_msg,
+                                    base2k,
+                                    size,
+                                    alpha,
+                                });
+                            }
+                        }
+                    }
+                }
+                len *= 2;
+            }
+        }
+    }
+    out.sort_by_key(|c| (c.n * c.ext, c.len, c.k_msg));
+    out
+}
+
+fn fam_clear<B: Bk>(run: &mut Run)
+where
+    Module<B>: HalAll<B> + CoreAll<B> + BrAll<B>,
+    Scratch<B>: ScratchTakeCore<B>,
+{
+    let cases = clear_cases::<B>(run.tier);
+    run.family(
+        &format!("clear/{}", B::NAME),
+        "outer = (N in {8,16,32}, ext in {1,2,4,8}, table length dividing the domain (<= N), scale k in 1..6 (message precision 1..5 with padding bit, and 1 without), base2k in {4,12,19}, limbs, value alphabet); inner = set vs definition at every coefficient (value mod 1 + digit range), then every k in [0, 2*N*ext): rotate(k), rotate(-k), rotate(-k), rotate(k) each compared limb-exactly with the ring model, and the constant coefficient with the entry selected by the index (negacyclic sign)",
+        cases,
+        |c, rec| exec_clear::<B>(c, None, rec),
+    );
+    let mut wide = vec![];
+    for &n in &[8usize, 32] {
+        for &ext in &[1usize, 2, 8] {
+            wide.push(WideCase {
+                backend: B::NAME.into(),
+                n,
+                ext,
+                base2k: 12,
+            });
+        }
+    }
+    run.family(
+        &format!("clear-wide/{}", B::NAME),
+        "rotation amounts outside (-2D, 2D): k in {2D, 2D+1, 4D+3, 6D-1, -2D, -2D-1, -3D, -4D-3, -6D+1, +-(2^31-1)} against the ring model",
+        wide,
+        |c, rec| exec_wide::<B>(c, rec),
+    );
+}
+
+// ===============================================================================================================
+// blind path
+// ===============================================================================================================
+
+pub const BR_BASE2K: usize = 19;
+pub const K_LWE: usize = 24;
+pub const K_BRK: usize = 3 * BR_BASE2K;
+pub const DNUM_BRK: usize = 2;
+pub const K_LUT: usize = BR_BASE2K;
+pub const K_RES: usize = 2 * BR_BASE2K;
+pub const RANK: usize = 1;
+/// |e| <= ceil(6 * 3.2) for every error coefficient (truncated Gaussian, rounded)
+pub const ERR_BOUND: f64 = 20.0;
+
+#[derive(Clone, Copy, Debug, PartialEq, Eq, Serialize, Deserialize)]
+pub enum LweDist {
+    /// fill_binary_block(block)
+    Block,
+    /// fill_binary_hw(n/2)
+    BinaryHw,
+    /// fill_binary_prob(0.5)
+    BinaryProb,
+    Zero,
+}
+
+#[derive(Clone, Debug, Serialize, Deserialize)]
+pub struct BlindCase {
+    pub backend: String,
+    pub n_glwe: usize,
+    pub n_lwe: usize,
+    pub block: usize,
+    pub dist: LweDist,
+    pub ext: usize,
+    pub left: bool,
+    pub key_seed: u8,
+    pub lwe_base2k: usize,
+    /// true: crafted noiseless samples (family blind-mask); false: library-encrypted messages
+    pub crafted: bool,
+}
+
+struct BlindCtx<B: Bk> {
+    module: Module<B>,
+    sk_glwe_clear: Vec<Vec<i64>>,
+    sk_lwe: LWESecret<Vec<u8>>,
+    brk: BlindRotationKeyPrepared<DeviceBuf<B>, CGGI, B>,
+    scratch_bytes: usize,
+    enc_scratch_bytes: usize,
+}
+
+fn blind_ctx<B: Bk>(c: &BlindCase) -> Result<BlindCtx<B>, String>
+where
+    Module<B>: HalAll<B> + CoreAll<B> + BrAll<B>,
+    Scratch<B>: ScratchTakeCore<B>,
+{
+    guarded(|| {
+        let module = B::module(c.n_glwe);
+        let brk_infos = EncryptionLayout::new_from_default_sigma(BlindRotationKeyLayout {
+            n_glwe: (c.n_glwe as u32).into(),
+            n_lwe: (c.n_lwe as u32).into(),
+            base2k: (BR_BASE2K as u32).into(),
+            k: (K_BRK as u32).into(),
+            dnum: (DNUM_BRK as u32).into(),
+            rank: (RANK as u32).into(),
+        })
+        .unwrap();
+        let glwe_infos = glwe_infos(c.n_glwe);
+        let mut seed_g = [c.key_seed; 32];
+        seed_g[1] = 0x51;
+        let mut seed_l = [c.key_seed; 32];
+        seed_l[1] = 0x52;
+        let mut sk_glwe: GLWESecret<Vec<u8>> = GLWESecret::alloc_from_infos(&glwe_infos);
+        sk_glwe.fill_ternary_prob(0.5, &mut Source::new(seed_g));
+        let sk_glwe_clear = clear_secret(c.n_glwe, RANK, Dist::TernaryProb, seed_g);
+        let mut sk_prep: GLWESecretPrepared<DeviceBuf<B>, B> = module.glwe_secret_prepared_alloc_from_infos(&glwe_infos);
+        module.glwe_secret_prepare(&mut sk_prep, &sk_glwe);
+        let mut sk_lwe: LWESecret<Vec<u8>> = LWESecret::alloc((c.n_lwe as u32).into());
+        let mut src_l = Source::new(seed_l);
+        match c.dist {
+            LweDist::Block => sk_lwe.fill_binary_block(c.block, &mut src_l),
+            LweDist::BinaryHw => sk_lwe.fill_binary_hw((c.n_lwe / 2).max(1), &mut src_l),
+            LweDist::BinaryProb => sk_lwe.fill_binary_prob(0.5, &mut src_l),
+            LweDist::Zero => sk_lwe.fill_zero(),
+        }
+        let enc_bytes = BlindRotationKey::<Vec<u8>, CGGI>::encrypt_sk_tmp_bytes(&module, &brk_infos).max(module.lwe_encrypt_sk_tmp_bytes(&lwe_layout(c)));
+        let mut scratch = B::scratch(enc_bytes);
+        garbage(&mut B::borrow(&mut scratch).data, 0);
+        let mut brk: BlindRotationKey<Vec<u8>, CGGI> = BlindRotationKey::<Vec<u8>, CGGI>::alloc(&brk_infos);
+        let mut sxe = Source::new([c.key_seed.wrapping_add(2); 32]);
+        let mut sxa = Source::new([c.key_seed.wrapping_add(1); 32]);
+        module.blind_rotation_key_encrypt_sk(&mut brk, &sk_prep, &sk_lwe, &brk_infos, &mut sxe, &mut sxa, B::borrow(&mut scratch));
+        let block = if c.dist == LweDist::Block { c.block } else { 1 };
+        let exec_bytes = BlindRotationKeyPrepared::<DeviceBuf<B>, CGGI, B>::execute_tmp_bytes(&module, block, c.ext, &glwe_infos, &brk_infos);
+        let prep_bytes = BlindRotationKeyPrepared::<DeviceBuf<B>, CGGI, B>::prepare_tmp_bytes(&module, &brk_infos);
+        let mut brk_prep: BlindRotationKeyPrepared<DeviceBuf<B>, CGGI, B> = BlindRotationKeyPrepared::alloc(&module, &brk);
+        let mut sp = B::scratch(prep_bytes.max(64));
+        garbage(&mut B::borrow(&mut sp).data, 0);
+        brk_prep.prepare(&module, &brk, B::borrow(&mut sp));
+        BlindCtx {
+            module,
+            sk_glwe_clear,
+            sk_lwe,
+            brk: brk_prep,
+            scratch_bytes: exec_bytes,
+            enc_scratch_bytes: enc_bytes,
+        }
+    })
+}
+
+fn glwe_infos(n: usize) -> GLWELayout {
+    GLWELayout {
+        n: (n as u32).into(),
+        base2k: (BR_BASE2K as u32).into(),
+        k: (K_RES as u32).into(),
+        rank: (RANK as u32).into(),
+    }
+}
+
+fn lwe_layout(c: &BlindCase) -> LWELayout {
+    LWELayout {
+        n: (c.n_lwe as u32).into(),
+        k: (K_LWE as u32).into(),
+        base2k: (c.lwe_base2k as u32).into(),
+    }
+}
+
+/// worst-case |phase error| of the blind-rotation output, scaled by 2^K_RES (derivation in the family rule text)
+pub fn noise_bound_scaled(n_glwe: usize, n_lwe: usize) -> i128 {
+    // one accumulator update adds (X^a - 1) * (acc (x) BRK_i):
+    //   gadget product: (rank+1) columns x dnum digits, digit magnitude <= 2^(b-1), row error <= ERR_BOUND * 2^-K_BRK per
+    //   coefficient, negacyclic product of N terms;
+    //   rounding of the product to the K_RES-bit accumulator: <= 1 unit per column, (1 + rank*N) units in the phase
+    //   (ternary secret);
+    //   factor 2 for (X^a - 1).
+    let gadget = ((RANK + 1) * DNUM_BRK * n_glwe) as f64 * (2f64).powi(BR_BASE2K as i32 - 1) * ERR_BOUND * (2f64).powi(K_RES as i32 - K_BRK as i32);
+    let round = (1 + RANK * n_glwe) as f64;
+    let per_step = 2.0 * (gadget + round);
+    // final normalisation / copy: one more unit per column
+    (n_lwe as f64 * per_step + round).ceil() as i128 + 1
+}
+
+/// balanced base-2^b digits (most significant first) of value/2^(size*b) mod 1
+fn balanced_digits(value: i128, b: usize, size: usize) -> Vec<i64> {
+    let bits = size * b;
+    let mut v = torus::centered_mod_pow2_i128(value, bits);
+    let mut out = vec![0i64; size];
+    let base = 1i128 << b;
+    let half = base >> 1;
+    for j in (0..size).rev() {
+        let mut dgt = v.rem_euclid(base);
+        if dgt >= half {
+            dgt -= base;
+        }
+        out[j] = dgt as i64;
+        v = (v - dgt) >> b;
+    }
+    out
+}
+
+/// records a failure and counts it per class (the per-thread failure cap drops descriptors, never counts)
+fn fail_count(rec: &mut Rec, d: Value) {
+    let key = format!(
+        "fail:{}:mod_switch_multi_limb={}:ext_gt_1={}{}",
+        d["kind"].as_str().unwrap_or("?"),
+        d["mod_switch_multi_limb"].as_bool().map(|b| b.to_string()).unwrap_or_else(|| "-".into()),
+        d["ext_gt_1"].as_bool().map(|b| b.to_string()).unwrap_or_else(|| "-".into()),
+        d.get("ext_boundary_rotation").and_then(|b| b.as_bool()).map(|b| format!(":ext_boundary_rotation={b}")).unwrap_or_default()
+    );
+    rec.add(&key, 1);
+    rec.fail(d);
+}
+
+struct Sample {
+    lwe: LWE<Vec<u8>>,
+    /// message and precision for the semantic check (encrypted samples only)
+    msg: Option<(usize, usize)>,
+    inner: Value,
+}
+
+#[allow(clippy::too_many_arguments)]
+fn check_sample<B: Bk>(ctx: &BlindCtx<B>, scratch_bytes: usize, c: &BlindCase, lut: &LookupTable, model: &LutModel, f: &[i64], p: usize, s: &Sample, gfill: usize, rec: &mut Rec)
+where
+    Module<B>: HalAll<B> + CoreAll<B> + BrAll<B>,
+    Scratch<B>: ScratchTakeCore<B>,
+{
+    let m = &ctx.module;
+    let d = c.n_glwe * c.ext;
+    let two_d = 2 * d as i64;
+    let dir = if c.left { LookUpTableRotationDirection::Left } else { LookUpTableRotationDirection::Right };
+    // which code path of the library's modulus switch this sample takes (classification only, never used by a check):
+    // radix > log2(2D) + 1 -> the top limb alone is rounded; otherwise several limbs are concatenated
+    let log2_two_d = (two_d as u64).trailing_zeros() as usize;
+    let multi_limb = c.lwe_base2k <= log2_two_d + 1;
+    let fail = |kind: &str, extra: Value| json!({"op": "blind_rotation", "backend": B::NAME, "kind": kind, "case": c, "inner": s.inner, "p": p,
+        "mod_switch_multi_limb": multi_limb, "ext_gt_1": c.ext > 1, "detail": extra});
+    let sk: Vec<i64> = ctx.sk_lwe.raw().to_vec();
+    let hw: i64 = sk.iter().map(|x| x.abs()).sum();
+
+    // ---- modulus switch: definition vs library ----
+    let lb = c.lwe_base2k;
+    let lsize = s.lwe.data().size();
+    let lbits = lsize * lb;
+    let coeff_val = |i: usize| -> i128 {
+        let digits: Vec<i64> = (0..lsize).map(|j| s.lwe.data().at(0, j)[i]).collect();
+        torus::value_scaled_small(&digits, lb)
+    };
+    let sign: i128 = if c.left { -1 } else { 1 };
+    let mut lib = vec![0i64; c.n_lwe + 1];
+    if let Err(msg) = guarded(|| mod_switch_2n(2 * d, &mut lib, &s.lwe.to_ref(), dir)) {
+        fail_count(rec, fail("panic", json!({"where": "mod_switch_2n", "panic": msg})));
+        return;
+    }
+    // exact scaled index contribution of coefficient i: sign * value_i * 2D / 2^lbits ; compare lib_i * 2^lbits with it mod 2D*2^lbits
+    let modulus_bits = lbits + (two_d as u64).trailing_zeros() as usize;
+    let mut inadmissible: Option<Value> = None;
+    let mut exact_total: i128 = 0; // scaled by 2^lbits
+    let mut lib_total: i64 = 0;
+    for i in 0..=c.n_lwe {
+        let exact = sign * coeff_val(i) * two_d as i128;
+        let diff = torus::centered_mod_pow2_i128(((lib[i] as i128) << lbits) - exact, modulus_bits);
+        if diff.abs() >= (1i128 << lbits) && inadmissible.is_none() {
+            inadmissible = Some(json!({"coefficient": i, "library": lib[i], "exact_times_2D": exact as f64 / (2f64).powi(lbits as i32),
+                "error_units": diff as f64 / (2f64).powi(lbits as i32), "lwe_base2k": lb, "two_d": two_d}));
+        }
+        let w = if i == 0 { 1 } else { sk[i - 1] };
+        exact_total += exact * w as i128;
+        lib_total += lib[i] * w;
+    }
+    let k_lib = lib_total.rem_euclid(two_d);
+    if let Some(v) = inadmissible {
+        fail_count(rec, fail("mod_switch_inadmissible", v));
+    }
+
+    // ---- the real blind rotation ----
+    let gi = glwe_infos(c.n_glwe);
+    let mut res: GLWE<Vec<u8>> = GLWE::alloc_from_infos(&gi);
+    garbage(res.data_mut().data.as_mut_slice(), gfill);
+    let mut scratch = B::scratch(scratch_bytes);
+    garbage(&mut B::borrow(&mut scratch).data, gfill);
+    let r = guarded(|| ctx.brk.execute(m, &mut res, &s.lwe, lut, B::borrow(&mut scratch)));
+    rec.evals(1);
+    if let Err(msg) = r {
+        fail_count(rec, fail("panic", json!({"where": "execute", "panic": msg, "k_lib": k_lib})));
+        return;
+    }
+    // exact phase, centred, scaled by 2^K_RES
+    let ph: Vec<i128> = glwe_phase(res.data(), BR_BASE2K, &ctx.sk_glwe_clear)
+        .iter()
+        .map(|x| i128::try_from(torus::centered_mod_pow2(x, K_RES)).unwrap())
+        .collect();
+    let bound = noise_bound_scaled(c.n_glwe, c.n_lwe);
+    let up = K_RES - K_LUT; // table values are scaled by 2^K_LUT
+    // which rotations of the table does the result equal (within the bound)?
+    let matches_rot = |t: i64| -> (bool, i128) {
+        let mut worst = 0i128;
+        for (mm, &phv) in ph.iter().enumerate() {
+            let want = (model.rotated_coeff(t, mm * c.ext) as i128) << up;
+            let e = torus::centered_mod_pow2_i128(phv - want, K_RES).abs();
+            if e > worst {
+                worst = e;
+            }
+            if e > bound {
+                return (false, e);
+            }
+        }
+        (true, worst)
+    };
+    let (ok_lib, err_lib) = matches_rot(k_lib);
+    rec.outcome(fnv(format!("{}:{}", p, k_lib).as_bytes()));
+    if ok_lib {
+        rec.add(&format!("noise_log2_le_{}", 128 - (err_lib.max(1) as u128).leading_zeros() as i64 - K_RES as i64), 1);
+    } else {
+        // which rotation (if any) was realised?
+        let found: Vec<i64> = (0..two_d).filter(|&t| matches_rot(t).0).collect();
+        // classification: a secret-one coefficient whose rotation amount a = hi*ext + lo has lo != 0 and hi in {0, 2N-1}
+        let two_n = 2 * c.n_glwe;
+        let boundary = c.ext > 1
+            && (0..c.n_lwe).any(|i| {
+                let ap = lib[1 + i].rem_euclid(two_d) as usize;
+                sk[i] != 0 && ap % c.ext != 0 && (ap / c.ext == 0 || ap / c.ext == two_n - 1)
+            });
+        let mut desc = fail(
+            "wrong_rotation",
+            json!({"index_from_library_mod_switch": k_lib, "rotations_matching_result": found, "delta": found.first().map(|t| (t - k_lib).rem_euclid(two_d)),
+                "a_mod_switched": lib, "sk_lwe": sk, "bound_log2": (bound as f64).log2() - K_RES as f64, "first_error_log2": (err_lib as f64).log2() - K_RES as f64,
+                "ai_hi_lo": lib[1..].iter().map(|&a| { let ap = a.rem_euclid(two_d) as usize; (ap / c.ext, ap % c.ext) }).collect::<Vec<_>>()}),
+        );
+        desc["ext_boundary_rotation"] = json!(boundary);
+        fail_count(rec, desc);
+        return;
+    }
+    // ---- definition window: the realised index must be within (1 + hw) units of the exact index ----
+    let dw = torus::centered_mod_pow2_i128(((k_lib as i128) << lbits) - exact_total, modulus_bits);
+    if dw.abs() >= ((1 + hw) as i128) << lbits {
+        fail_count(rec, fail(
+            "index_outside_definition_window",
+            json!({"k_lib": k_lib, "exact_index": exact_total as f64 / (2f64).powi(lbits as i32), "units_off": dw as f64 / (2f64).powi(lbits as i32), "hw": hw}),
+        ));
+    }
+    // ---- semantic statement (standard direction): constant coefficient decodes to f(m) ----
+    if let Some((msg, p)) = s.msg {
+        if c.left {
+            let lwe_err_units = (ERR_BOUND * (2f64).powi(-(K_LWE as i32)) * two_d as f64).ceil() as i64 + 1;
+            let budget = 1 + hw + lwe_err_units;
+            if (model.step as i64) / 2 > budget {
+                rec.add("semantic_checks", 1);
+                let want = (f[msg] as i128) << (K_RES - (p + 1));
+                let e = torus::centered_mod_pow2_i128(ph[0] - want, K_RES).abs();
+                if e > bound {
+                    fail_count(rec, fail("wrong_entry", json!({"message": msg, "f": f[msg], "k_lib": k_lib, "ideal_index": msg * model.step, "budget_units": budget, "half_step": model.step / 2})));
+                }
+            } else {
+                rec.add("semantic_skipped_budget_exceeds_half_step", 1);
+            }
+        }
+    }
+}
+
+pub fn exec_blind<B: Bk>(c: &BlindCase, only: Option<&Value>, thorough_bodies: bool, rec: &mut Rec)
+where
+    Module<B>: HalAll<B> + CoreAll<B> + BrAll<B>,
+    Scratch<B>: ScratchTakeCore<B>,
+{
+    rec.distinct(fnv(format!("{:?}", c).as_bytes()));
+    rec.sample(|| serde_json::to_value(c).unwrap());
+    let ctx = match blind_ctx::<B>(c) {
+        Ok(x) => x,
+        Err(msg) => {
+            rec.fail(json!({"op": "blind_rotation_key", "backend": B::NAME, "kind": "panic", "case": c, "inner": {}, "panic": msg}));
+            return;
+        }
+    };
+    let m = &ctx.module;
+    let d = c.n_glwe * c.ext;
+    let two_d = 2 * d;
+    let dir = if c.left { LookUpTableRotationDirection::Left } else { LookUpTableRotationDirection::Right };
+    let ps: Vec<usize> = if c.crafted { vec![3] } else { (1..=5).collect() };
+    let lwe_infos = EncryptionLayout::new_from_default_sigma(lwe_layout(c)).unwrap();
+    let mut sxe = Source::new([c.key_seed.wrapping_add(11); 32]);
+    let mut sxa = Source::new([c.key_seed.wrapping_add(12); 32]);
+    let mut gfill = 0usize;
+    let mut scratch_bytes = ctx.scratch_bytes;
+    let mut probed = false;
+    for p in ps {
+        // replay: the encryption sources advance through every p, so only crafted (deterministic) cases may skip
+        let p_wanted = only.map(|o| o.get("p").and_then(|x| x.as_u64()).map(|x| x as usize == p).unwrap_or(true)).unwrap_or(true);
+        if c.crafted && !p_wanted {
+            continue;
+        }
+        let len = 1usize << p;
+        // distinct entries so that the realised rotation is identifiable: f(i) = 2i+1 reduced to the signed (p+1)-bit range
+        let f: Vec<i64> = (0..len).map(|i| torus::centered_mod_pow2_i128(2 * i as i128 + 1, p + 1) as i64).collect();
+        let mut lut = LookupTable::alloc(&LookUpTableLayout {
+            n: (c.n_glwe as u32).into(),
+            extension_factor: c.ext,
+            k: (K_LUT as u32).into(),
+            base2k: (BR_BASE2K as u32).into(),
+        });
+        if let Err(msg) = guarded(|| {
+            lut.set(m, &f, p + 1);
+            lut.set_rotation_direction(dir);
+        }) {
+            rec.fail(json!({"op": "lookup_table_set", "backend": B::NAME, "kind": "panic", "case": c, "inner": {"p": p}, "panic": msg}));
+            continue;
+        }
+        let model = LutModel::new(d, &f, p + 1, K_LUT);
+        // the table the real rotation starts from must be the defined one (also checked exhaustively by clear/*)
+        {
+            let e0 = extended(&read_table(&lut));
+            if (0..d).any(|pos| e0[0][pos] != model.pre[pos]) {
+                rec.fail(json!({"op": "lookup_table_set", "backend": B::NAME, "kind": "set_wrong_value", "case": c, "inner": {"p": p}}));
+                continue;
+            }
+        }
+        let mut samples: Vec<Sample> = vec![];
+        if c.crafted {
+            // every value v at every mask position j (others 0), body in {0, 1, D+3} (quick: {1, D+3})
+            let all_bodies = [0usize, 1, d + 3];
+            let bodies: &[usize] = if thorough_bodies { &all_bodies[..] } else { &all_bodies[1..] };
+            let lsize = K_LWE.div_ceil(c.lwe_base2k);
+            let lbits = lsize * c.lwe_base2k;
+            let unit = 1i128 << (lbits - two_d.trailing_zeros() as usize);
+            for j in 0..c.n_lwe {
+                for v in 0..two_d {
+                    for &body in bodies {
+                        if let Some(o) = only {
+                            if o.get("j").and_then(|x| x.as_u64()) != Some(j as u64)
+                                || o.get("v").and_then(|x| x.as_u64()) != Some(v as u64)
+                                || o.get("body").and_then(|x| x.as_u64()) != Some(body as u64)
+                            {
+                                continue;
+                            }
+                        }
+                        let mut lwe: LWE<Vec<u8>> = LWE::alloc_from_infos(&lwe_infos);
+                        let db = balanced_digits(body as i128 * unit, c.lwe_base2k, lsize);
+                        let dv = balanced_digits(v as i128 * unit, c.lwe_base2k, lsize);
+                        for l in 0..lsize {
+                            lwe.data_mut().at_mut(0, l)[0] = db[l];
+                            lwe.data_mut().at_mut(0, l)[1 + j] = dv[l];
+                        }
+                        samples.push(Sample {
+                            lwe,
+                            msg: None,
+                            inner: json!({"p": p, "j": j, "v": v, "body": body}),
+                        });
+                    }
+                }
+            }
+        } else {
+            let err_seeds = 2usize;
+            for msg in 0..len {
+                for es in 0..err_seeds {
+                    // the sources advance deterministically; a replay re-generates the same stream up to the wanted sample
+                    let mut lwe: LWE<Vec<u8>> = LWE::alloc_from_infos(&lwe_infos);
+                    let mut pt: LWEPlaintext<Vec<u8>> = LWEPlaintext::alloc_from_infos(&lwe_infos);
+                    pt.encode_i64(msg as i64, ((p + 1) as u32).into());
+                    let mut se = B::scratch(ctx.enc_scratch_bytes);
+                    garbage(&mut B::borrow(&mut se).data, gfill & 1);
+                    if let Err(e) = guarded(|| m.lwe_encrypt_sk(&mut lwe, &pt, &ctx.sk_lwe, &lwe_infos, &mut sxe, &mut sxa, B::borrow(&mut se))) {
+                        rec.fail(json!({"op": "lwe_encrypt_sk", "backend": B::NAME, "kind": "panic", "case": c, "inner": {"p": p, "msg": msg}, "panic": e}));
+                        continue;
+                    }
+                    if let Some(o) = only {
+                        if !p_wanted || o.get("msg").and_then(|x| x.as_u64()) != Some(msg as u64) || o.get("err_seed").and_then(|x| x.as_u64()) != Some(es as u64) {
+                            continue;
+                        }
+                    }
+                    samples.push(Sample {
+                        lwe,
+                        msg: Some((msg, p)),
+                        inner: json!({"p": p, "msg": msg, "err_seed": es}),
+                    });
+                }
+            }
+        }
+        if !probed && !samples.is_empty() {
+            // the declared scratch size must suffice: probe once per outer case; if the library panics on its own
+            // declared size, report it once and continue the functional checks with a larger arena
+            probed = true;
+            let gi = glwe_infos(c.n_glwe);
+            let mut res: GLWE<Vec<u8>> = GLWE::alloc_from_infos(&gi);
+            let mut scratch = B::scratch(scratch_bytes);
+            garbage(&mut B::borrow(&mut scratch).data, 0);
+            if let Err(msg) = guarded(|| ctx.brk.execute(m, &mut res, &samples[0].lwe, &lut, B::borrow(&mut scratch))) {
+                if msg.contains("from scratch") {
+                    fail_count(rec, json!({"op": "blind_rotation_execute_tmp_bytes", "backend": B::NAME, "kind": "declared_scratch_insufficient", "case": c, "inner": samples[0].inner, "ext_gt_1": c.ext > 1,
+                        "declared_bytes": scratch_bytes, "block_gt_1": c.dist == LweDist::Block && c.block > 1, "ext_gt_1": c.ext > 1, "panic": msg}));
+                    scratch_bytes = scratch_bytes * 8 + (1 << 16);
+                }
+            }
+        }
+        for s in &samples {
+            gfill ^= 1;
+            check_sample::<B>(&ctx, scratch_bytes, c, &lut, &model, &f, p, s, gfill, rec);
+        }
+    }
+}
+
+fn blind_cases<B: Bk>(tier: Tier, crafted: bool) -> Vec<BlindCase> {
+    let mut out = vec![];
+    let thorough = tier.is_thorough();
+    // the NTT120 backends are ~5x slower per rotation: in the quick tier they run N_glwe = 32, LWE radix 19 only
+    let light = !thorough && B::FAMILY == pvc_common::Family::Ntt120;
+    let n_glwes: Vec<usize> = if crafted || light { vec![32] } else { vec![32, 64] };
+    let shapes: Vec<(usize, usize, LweDist)> = vec![
+        (4, 1, LweDist::Block),
+        (4, 2, LweDist::Block),
+        (4, 4, LweDist::Block),
+        (7, 1, LweDist::Block),
+        (7, 7, LweDist::Block),
+        (8, 1, LweDist::Block),
+        (8, 2, LweDist::Block),
+        (8, 4, LweDist::Block),
+        (8, 8, LweDist::Block),
+        (4, 1, LweDist::BinaryHw),
+        (7, 1, LweDist::BinaryProb),
+        (8, 1, LweDist::BinaryHw),
+        (4, 1, LweDist::Zero),
+    ];
+    let seeds: Vec<u8> = if crafted { vec![1, 2] } else { tier.pick(vec![1, 2], vec![1, 2, 3]) };
+    // radix 8 / 7 sit on either side of the library's branch point log2(2D)+1 for D = 32; 4 is the radix of the
+    // library's own LWE key-switching keys
+    let lwe_b: Vec<usize> = if light {
+        vec![19]
+    } else if crafted {
+        tier.pick(vec![19], vec![19, 12, 8, 7, 4])
+    } else {
+        tier.pick(vec![19, 4], vec![19, 12, 8, 7, 4])
+    };
+    for &n_glwe in &n_glwes {
+        for &(n_lwe, block, dist) in &shapes {
+            if crafted && !thorough && !((n_lwe == 4 && !light) || (n_lwe == 4 && block == 2) || (n_lwe == 8 && block == 4 && !light)) {
+                continue;
+            }
+            for &ext in &[1usize, 2, 4] {
+                // the extended algorithm requires the block-binary distribution (asserted by the library)
+                if ext > 1 && dist != LweDist::Block {
+                    continue;
+                }
+                for left in [true, false] {
+                    for &key_seed in &seeds {
+                        for &lwe_base2k in &lwe_b {
+                            out.push(BlindCase {
+                                backend: B::NAME.into(),
+                                n_glwe,
+                                n_lwe,
+                                block,
+                                dist,
+                                ext,
+                                left,
+                                key_seed,
+                                lwe_base2k,
+                                crafted,
+                            });
+                        }
+                    }
+                }
+            }
+        }
+    }
+    out.sort_by_key(|c| (c.n_glwe * c.ext, c.n_lwe, c.block));
+    out
+}
+
+fn fam_blind<B: Bk>(run: &mut Run)
+where
+    Module<B>: HalAll<B> + CoreAll<B> + BrAll<B>,
+    Scratch<B>: ScratchTakeCore<B>,
+{
+    let cases = blind_cases::<B>(run.tier, false);
+    run.family(
+        &format!("blind/{}", B::NAME),
+        "outer = (N_glwe in {32,64}, (n_lwe, block, distribution), ext in {1,2,4}, direction, key seed, LWE base2k); inner = p in 1..5, every message of Z_{2^p}, 2 error draws; checks: mod_switch_2n within 1 unit of the definition per coefficient; exact phase of the result == table rotated by the library's own index at every coefficient within the worst-case bound n_lwe*2*((rank+1)*dnum*N*2^(b-1)*20*2^-k_brk + (1+rank*N)*2^-k_res); index within (1+hw) units of the exact index; Left: constant coefficient == f(m) when the budget is below half a step",
+        cases,
+        |c, rec| exec_blind::<B>(c, None, true, rec),
+    );
+    let thorough = run.tier.is_thorough();
+    let cases = blind_cases::<B>(run.tier, true);
+    run.family(
+        &format!("blind-mask/{}", B::NAME),
+        "crafted noiseless LWE samples at N_glwe = 32: every value v in [0, 2D) at every mask position j (other mask coefficients 0) x body in {0, 1, D+3} (quick: {1, D+3}); same checks",
+        cases,
+        |c, rec| exec_blind::<B>(c, None, thorough, rec),
+    );
+}
+
+pub fn run(run: &mut Run) {
+    run.assume("clear path: table lengths are the powers of two dividing the domain and <= N (lookup_table_set asserts f.len() <= N); scale k <= limbs * base2k; rotation amounts in (-2D, 2D) for the main family (blind rotation only produces those), wider amounts in clear-wide");
+    run.assume("blind path: key / accumulator / table radix 19 with k_brk = 57 (dnum 2), k_res = 38, k_lut = 19, k_lwe = 24 as in the library's blind-rotation test; rank 1; ternary GLWE secret; LWE radix in {19, 12, 4}; default sigma 3.2 truncated at 6 sigma, so |e| <= 20 per error coefficient");
+    run.assume("the extended algorithm (ext > 1) is only defined for block-binary LWE secrets (asserted by the library); block size 1 is the standard binary algorithm");
+    run.assume("an admissible modulus switch rounds every coefficient to strictly less than one unit from value * 2D (floor, ceiling or nearest on any number of leading limbs); the rotation actually performed must be exactly the one of the library's own mod-switched coefficients");
+    for_backends!(fam_clear(run));
+    for_backends!(fam_blind(run));
+    // summary notes: rotations performed, semantic checks, measured noise against the derived bound
+    let mut rotations = 0u64;
+    let mut blind = 0u64;
+    let mut semantic = 0u64;
+    let mut skipped = 0u64;
+    let mut hist: std::collections::BTreeMap<String, u64> = Default::default();
+    for f in &run.families {
+        if f.name.starts_with("clear") {
+            rotations += f.rec.evaluations;
+        } else {
+            blind += f.rec.evaluations;
+            for (k, v) in &f.rec.extra {
+                if k == "semantic_checks" {
+                    semantic += v;
+                } else if k.starts_with("semantic_skipped") {
+                    skipped += v;
+                } else if k.starts_with("noise_log2_le_") || k.starts_with("fail:") {
+                    *hist.entry(k.clone()).or_insert(0) += v;
+                }
+            }
+        }
+    }
+    run.note(
+        "summary",
+        json!({"clear_set_and_rotate_calls": rotations, "blind_rotations_checked": blind, "semantic_f_of_m_checks": semantic,
+            "semantic_skipped_budget_exceeds_half_step": skipped, "failure_classes_and_measured_max_phase_error_log2_histogram_of_passing_rotations": hist,
+            "derived_bound_log2": {"N32_nlwe4": (noise_bound_scaled(32, 4) as f64).log2() - K_RES as f64, "N64_nlwe8": (noise_bound_scaled(64, 8) as f64).log2() - K_RES as f64}}),
+    );
+}
+
+pub fn replay(run: &mut Run, d: &Value) {
+    let fam = d["family"].as_str().unwrap_or("").to_string();
+    let backend = d["case"]["backend"].as_str().unwrap_or("fft64-ref").to_string();
+    macro_rules! on_backend {
+        ($f:ident ( $($args:expr),* )) => {
+            match backend.as_str() {
+                "fft64-ref" => $f::<pvc_common::FFT64Ref>($($args),*),
+                "ntt120-ref" => $f::<pvc_common::NTT120Ref>($($args),*),
+                "fft64-avx" => $f::<pvc_common::FFT64Avx>($($args),*),
+                "ntt120-avx" => $f::<pvc_common::NTT120Avx>($($args),*),
+                o => panic!("unknown backend {o}"),
+            }
+        };
+    }
+    if fam.starts_with("clear-wide/") {
+        let c: WideCase = serde_json::from_value(d["case"].clone()).expect("case");
+        run.single(&fam, "replay", |rec| on_backend!(exec_wide(&c, rec)));
+    } else if fam.starts_with("clear/") {
+        let c: ClearCase = serde_json::from_value(d["case"].clone()).expect("case");
+        let k = d["inner"]["k"].as_i64();
+        run.single(&fam, "replay", |rec| on_backend!(exec_clear(&c, k, rec)));
+    } else if fam.starts_with("blind") {
+        let c: BlindCase = serde_json::from_value(d["case"].clone()).expect("case");
+        let inner = d.get("inner").cloned();
+        run.single(&fam, "replay", |rec| on_backend!(exec_blind(&c, inner.as_ref(), true, rec)));
+    } else {
+        panic!("C14 replay: unknown family {fam}");
+    }
 }
